@@ -234,3 +234,66 @@ Print Assumptions C07_seek_positions.
 Print Assumptions C07_positions_roundtrip.
 Print Assumptions C07_positions_of_doc.
 Print Assumptions C07_seek_blocks.
+
+(* ---- the SkipReader as a state machine; cursor reuse; merged segments ----------------------------------- *)
+From TV Require Import Postings.Reuse Postings.Merge.
+
+(* SkipReader::reset assigns every field that SkipReader::new initialises (all but skip_info): a reader that is
+   reset is a new reader, whatever it did before (in particular last_doc_in_previous_block, the delta base of
+   the first block, is 0 again). *)
+Theorem C07_skip_reader_reset : forall old data doc_freq,
+  sr_reset old data doc_freq = sr_new data doc_freq (sr_skip_info old).
+Proof. exact sr_reset_is_new. Qed.
+
+Theorem C07_skip_reader_reset_base : forall old data doc_freq st,
+  sr_reset old data doc_freq = Some st ->
+  sr_last_doc_in_previous_block st = 0 /\ sr_position_offset st = 0 /\ sr_byte_offset st = 0.
+Proof. exact sr_reset_delta_base. Qed.
+
+(* walking the SkipReader object (load_block ; advance ; ...) from the state `new` builds is Codec.read_blocks,
+   the function C07_blocks / C07_roundtrip / C07_seek are about *)
+Theorem C07_skip_reader_walk : forall unpack opt req doc_freq data,
+  cursor_open_blocks unpack opt req doc_freq data = read_blocks unpack opt req doc_freq data.
+Proof. exact cursor_open_is_read_blocks. Qed.
+
+(* BlockSegmentPostings::reset on a cursor in ANY state reads what a fresh cursor reads, provided the record option
+   decided when the cursor was opened is the one a fresh `open` would decide for the new term *)
+Theorem C07_cursor_reset_is_fresh : forall unpack old opt req doc_freq data,
+  (forall sk, open_option opt doc_freq sk = sr_skip_info old) ->
+  cursor_reset_blocks unpack old req doc_freq data = read_blocks unpack opt req doc_freq data.
+Proof. exact cursor_reset_is_fresh. Qed.
+
+(* F71 (known finding): that proviso fails for JSON fields: a cursor opened on a term recorded WITH frequencies and
+   re-targeted on a term recorded WITHOUT (non-text leaf, >= 128 documents) parses the 5-byte skip entries as
+   8-byte ones: panic, where a fresh cursor reads the list. *)
+Definition f71_list : list (N * N) := map (fun i => (N.of_nat (2 * i), 1)) (seq 0 128).
+Theorem C07_cursor_reuse_json_refuted :
+  exists old, sr_new [] 0 WithFreqs = Some old /\
+  cursor_reset_blocks bp4x_unpack old WithFreqs 128 (serialize bp4x_pack (fun _ => (0, 0)) WithFreqs false f71_list) = RPanic /\
+  read_all bp4x_unpack WithFreqs WithFreqs 128 (serialize bp4x_pack (fun _ => (0, 0)) WithFreqs false f71_list)
+  = ROk (project false f71_list).
+Proof. eexists. split; [reflexivity|]. vm_compute. split; reflexivity. Qed.
+
+(* merge: every field of the merged segment gets the field norms of its own source documents, whatever the shared
+   scratch buffer held (write_fieldnorms), i.e. the quantised token counts of the merged documents *)
+Theorem C07_merge_fieldnorms : forall fields buf mapping,
+  write_fieldnorms buf fields mapping = map (fun segs => map (norm_at segs) mapping) fields.
+Proof. exact write_fieldnorms_spec. Qed.
+
+Theorem C07_merged_norms_agree : forall (src : list (list docin)) (mapping : list addr),
+  Forall (fun a => (fst a < length src)%nat /\ (snd a < length (nth (fst a) src []))%nat) mapping ->
+  map (norm_at (map fieldnorm_ids src)) mapping = fieldnorm_ids (map (doc_at src []) mapping).
+Proof. exact merged_norms_agree. Qed.
+
+(* total_num_tokens of a merged field is an estimate when a source has deletes: never above the exact count of the
+   surviving documents, exact when their norms are exact *)
+Theorem C07_merged_total_estimate : forall docs alive,
+  forallb (fun a : bool => a) alive = false ->
+  est_source true docs alive <= total_num_tokens (alive_docs docs alive) /\
+  (Forall (fun d => doc_num_tokens d <= EXACT_BELOW) (alive_docs docs alive) ->
+   est_source true docs alive = total_num_tokens (alive_docs docs alive)).
+Proof. exact est_source_normed. Qed.
+
+Print Assumptions C07_cursor_reset_is_fresh.
+Print Assumptions C07_cursor_reuse_json_refuted.
+Print Assumptions C07_merged_norms_agree.
